@@ -3,7 +3,10 @@
 (* (or goroutine), "marshal" logs the text a call returned (copied at return  *)
 (* time; the returned slice itself is kept, uncopied), "check" logs what all  *)
 (* retained slices of that caller read as later -- after further marshalling, *)
-(* after the unmarshal round trips, in the concurrent phase after wg.Wait().  *)
+(* after the unmarshal round trips, in the concurrent phase after wg.Wait();  *)
+(* "decode" logs what a value decoded from the caller's reused input buffer   *)
+(* printed as right after the call, "check" also what all of them print as    *)
+(* after the buffer has been overwritten.                                     *)
 (* Accepted iff every retained result still reads as the text it had.         *)
 EXTENDS MarshalValues, Json
 
@@ -13,15 +16,20 @@ tvars == <<vars, l>>
 TInit == Init /\ l = 1
 Ev == Trace[l]
 
-TReset   == Ev.op = "reset" /\ held' = <<>> /\ UNCHANGED <<mem, ops>>
+TReset   == Ev.op = "reset" /\ held' = <<>> /\ decoded' = <<>> /\ UNCHANGED <<mem, inbuf, ops>>
 TMarshal == /\ Ev.op = "marshal"
             /\ held' = Append(held, [obj |-> Ev.obj, buf |-> 0, len |-> 0, text |-> Ev.text])
-            /\ UNCHANGED <<mem, ops>>
+            /\ UNCHANGED <<mem, inbuf, decoded, ops>>
+(* "decode": a value decoded from the caller's reused buffer; text = what it printed as right after the call *)
+TDecode  == /\ Ev.op = "decode"
+            /\ decoded' = Append(decoded, [obj |-> Ev.obj, view |-> FALSE, len |-> 0, text |-> Ev.text])
+            /\ UNCHANGED <<mem, held, inbuf, ops>>
 TCheck   == /\ Ev.op = "check"
             /\ Ev.held = [i \in DOMAIN held |-> held[i].text]        \* ValuesNotViews, observed
+            /\ Ev.decoded = [i \in DOMAIN decoded |-> decoded[i].text]   \* DecodedIndependent, observed
             /\ UNCHANGED vars
 TNext == /\ l <= Len(Trace)
          /\ l' = l + 1
-         /\ (TReset \/ TMarshal \/ TCheck)
+         /\ (TReset \/ TMarshal \/ TDecode \/ TCheck)
 TSpec == TInit /\ [][TNext]_tvars
 =============================================================================
